@@ -1420,8 +1420,25 @@ var rReverse = &Rule{
 				if okA && (la.add(ia, -1).String() == "0" || la.add(ib, -1).String() == "0") {
 					if q, ok := bin.Y.(*ssa.BinOp); ok && q.Op == token.QUO {
 						if k, ok := sx.ConstInt(q.Y); ok && k == 2 {
-							if _, ok := linOf(q.X, 0); ok {
-								okBound = true
+							// the dividend is len(ex) itself (or len(ex)+1, which only adds the middle element's swap with
+							// itself): (len(ex)-1)/2 stops one pair short for every even length - two exceptions stay unreversed
+							if qx, ok := linOf(q.X, 0); ok {
+								lenOK, rest := false, true
+								for v, coef := range qx {
+									switch {
+									case v == nil:
+										if coef != 0 && coef != 1 {
+											rest = false
+										}
+									case isLenOf(v, fn.Params[0]):
+										lenOK = coef == 1
+									default:
+										if coef != 0 {
+											rest = false
+										}
+									}
+								}
+								okBound = lenOK && rest
 							}
 						}
 					} else if ra, ok := linOf(bin.Y, 0); ok && (ra.add(ia, -1).String() == "0" || ra.add(ib, -1).String() == "0") {
@@ -1430,7 +1447,7 @@ var rReverse = &Rule{
 				}
 			}
 		}
-		c.Check(okBound, name+": bound", fn.Pos(), "runs while a < len(ex)/2 or a < b", "the loop bound is not one of the two forms that cover exactly the first half")
+		c.Check(okBound, name+": bound", fn.Pos(), "runs while a < len(ex)/2 or a < b", "the loop bound is not one of the two forms that cover exactly the first half (a < len(ex)/2, a < b): some pair of exceptions is left unswapped (or swapped back), so for some number of stack-carrying layers the exceptions are not outermost-first")
 	},
 }
 
@@ -2887,4 +2904,14 @@ func blockReachesItself(b *ssa.BasicBlock) bool {
 		work = append(work, x.Succs...)
 	}
 	return false
+}
+
+// isLenOf: v is len(x) (the builtin applied to x itself).
+func isLenOf(v ssa.Value, x ssa.Value) bool {
+	call, ok := v.(*ssa.Call)
+	if !ok {
+		return false
+	}
+	b, ok := call.Call.Value.(*ssa.Builtin)
+	return ok && b.Name() == "len" && len(call.Call.Args) == 1 && call.Call.Args[0] == x
 }
